@@ -307,6 +307,44 @@ def case_top(drv, seed, index, varmode):
     return {"problems": problems, "mismatch": mismatch, "hash": hashlib.sha1(f"top{varmode}{index}".encode()).hexdigest()}
 
 
+def script_cases(res):
+    """the templates rendered the way the NCS build renders them - ncs/build.py template as a script, with --core / --version_file / --output-suit -
+    into an ordinary build directory and into one that lies on another file system than the temporary directory: the file written is the rendering"""
+    import shutil
+    from ncs import build as ncs_build
+    tpl = str(common.REPO / "ncs" / "nordic_top_envelope.yaml.jinja2")
+    places = [tempfile.mkdtemp(prefix="verif_c19s_")]
+    try:
+        if os.path.isdir("/dev/shm") and os.access("/dev/shm", os.W_OK) and os.stat("/dev/shm").st_dev != os.stat(tempfile.gettempdir()).st_dev:
+            places.append(tempfile.mkdtemp(prefix="verif_c19s_", dir="/dev/shm"))
+        for k, place in enumerate(places):
+            art = os.path.join(place, "DFU") + "/"
+            os.makedirs(art)
+            kc = os.path.join(place, "sysbuild.config")
+            open(kc, "w").write('SB_CONFIG_SUIT_ENVELOPE=y\n')
+            vf = os.path.join(place, "VERSION")
+            open(vf, "w").write("VERSION_MAJOR = 1\nVERSION_MINOR = 2\nPATCHLEVEL = 3\nVERSION_TWEAK = 4\nEXTRAVERSION = rc1\n")
+            out = os.path.join(art, "top.yaml")
+            rc, log = common.run_ncs_build(["template", "--artifacts-folder", art, "--template-suit", tpl, "--output-suit", out, "--version_file", vf], place, core_config=kc,
+                                           cores=("sysbuild", "secdom", "sysctrl"))
+            res.case(["ncs-build-template", "other-file-system" if k else "build-directory"], nontrivial=True)
+            res.count("script:template:" + ("other-file-system" if k else "build-directory"))
+            if rc != 0 or not os.path.exists(out):
+                res.spec_failures.append({"script": "ncs/build.py template", "output_on": "a file system other than the temporary directory's" if k else "the build directory",
+                                          "what": f"rendering the top template through the build script failed (exit {rc})", "log": log[-400:]})
+                continue
+            cfg = ncs_build.read_configurations([f"{c_},,,{kc}" for c_ in ("sysbuild", "secdom", "sysctrl")], None)
+            cfg.update(ncs_build.read_version_file(vf))
+            cfg["output_envelope"] = out
+            cfg["artifacts_folder"] = art
+            want = ncs_build.render_template(tpl, cfg)
+            if open(out).read() != want:
+                res.spec_failures.append({"script": "ncs/build.py template", "what": "the file the build script wrote is not the rendering of the template for this configuration"})
+    finally:
+        for place in places:
+            shutil.rmtree(place, ignore_errors=True)
+
+
 def run(tier: str, seed: int) -> int:
     common.ensure_repo_on_path()
     res = Result(PROP, tier, seed)
@@ -376,6 +414,7 @@ def run(tier: str, seed: int) -> int:
             for p in o["problems"]:
                 res.spec_failures.append({"template": "top", "vars": varmode, "index": index, "what": p})
     res.exhaustive = True
+    script_cases(res)
     res.notes["exhaustive_scope"] = "7 image subsets x 3 variable settings x {default, custom plain, YAML-significant} names (root) + 3 variable settings (top); child envelopes sampled"
     res.sample({"template": "root", "subset": ["radio", "top"], "names": "default", "vars": "default"})
     drv.close()
